@@ -229,7 +229,41 @@ def check(setup, label):
     return True
 
 
+def check_deprecated_parsers():
+    """sources declared with type: amex / type: boa (deprecated, still accepted) are transformed and classified by the configured rules file, with the
+    supplemental sources available, like a format: source holding the same rows"""
+    b = Budget()
+    try:
+        b.write('config/merchants.rules', 'field.description = regex_replace(field.description, "^APLPAY ", "")\n\n[Coffee]\nmatch: startswith("STARBUCKS")\ncategory: Food\nsubcategory: Coffee\n\n'
+                                          '[Verified Order]\nmatch: contains("AMZN") and any(r.amount == amount for r in orders)\ncategory: Shopping\nsubcategory: Online\n\n'
+                                          '[By Source]\nmatch: source == "Gold Card" or source == "Checking" or source == "Generic"\ntags: src-ok\n')
+        b.write('data/amex.csv', 'Date,Description,Amount\n01/05/2025,APLPAY STARBUCKS 123,5.00\n01/06/2025,AMZN MKTP,20.00\n')
+        b.write('data/boa.txt', '01/05/2025  APLPAY STARBUCKS 123  5.00  100.00\n01/06/2025  AMZN MKTP  20.00  80.00\n')
+        b.write('data/generic.csv', 'Date,Description,Amount\n01/05/2025,APLPAY STARBUCKS 123,5.00\n01/06/2025,AMZN MKTP,20.00\n')
+        b.write('data/orders.csv', 'Date,Item,Amount\n01/06/2025,Book,20.00\n')
+        b.settings({'year': 2025, 'merchants_file': 'config/merchants.rules', 'data_sources': [
+            {'name': 'Gold Card', 'file': 'data/amex.csv', 'type': 'amex'}, {'name': 'Checking', 'file': 'data/boa.txt', 'type': 'boa'},
+            {'name': 'Generic', 'file': 'data/generic.csv', 'format': '{date:%m/%d/%Y}, {description}, {amount}'},
+            {'name': 'orders', 'file': 'data/orders.csv', 'format': '{date:%m/%d/%Y}, {item}, {amount}', 'columns': {'description': '{item}'}, 'supplemental': True}]})
+        O.case(('deprecated_parsers',))
+        out, err, code = run_cmd(cmd_run, **up_args(b, quiet=True, verbose=2))
+        doc = last_json(out)
+        w = {'deprecated_parsers': True}
+        if doc is None:
+            O.fail('C11.no_report.deprecated_parsers', w, 'a report', (out + err)[-300:])
+            return
+        got = sorted((m['name'], m['category'], m['count']) for m in doc['merchants'])
+        want = [('Coffee', 'Food', 3), ('Verified Order', 'Shopping', 3)]
+        if got != want:
+            O.fail('C11.deprecated_parser_sources_classified_differently', w, want, got, 'tally up --format json: three sources with the same two rows')
+    finally:
+        b.close()
+
+
 def main():
+    if O.witness and 'deprecated_parsers' in O.witness:
+        check_deprecated_parsers()
+        O.finish()
     if O.witness:
         check(O.witness['setup'], O.witness.get('label', 'witness'))
         O.finish()
@@ -259,6 +293,7 @@ def main():
     s = copy.deepcopy(base)
     s['Card']['readable'], s['Euro']['present'] = False, False
     check(s, 'Card.unreadable+Euro.missing')
+    check_deprecated_parsers()
     O.sample({'label': 'Bank.negate:False'})
     O.finish()
 
